@@ -30,9 +30,6 @@ pub open spec fn cmp_is_sgn<F: Fn(Val, Val) -> XResult<i8>>(cmp: &F) -> bool {
     &&& forall|a: Val, b: Val, r: XResult<i8>| #[trigger] cmp.ensures((a, b), r) ==> (r matches Ok(x) ==> (
             if fails(a, b) { x is Err } else { x matches Ok(c) && c as int == sgn(a, b) && -1 <= c <= 1 }))
 }
-/// std: Result::unwrap_or (documented meaning), so that a body using it stays within the dialect
-pub assume_specification<X, E> [Result::<X, E>::unwrap_or] (r: Result<X, E>, default: X) -> (o: X)
-    ensures o == (match r { Ok(x) => x, Err(_) => default });
 pub assume_specification<T> [<[T]>::swap] (s: &mut [T], a: usize, b: usize)
     requires a < old(s)@.len(), b < old(s)@.len(),
     ensures final(s)@ == old(s)@.update(a as int, old(s)@[b as int]).update(b as int, old(s)@[a as int]);
@@ -58,6 +55,8 @@ pub proof fn lemma_swap_perm(s: Seq<Val>, a: int, b: int)
         assert(t.to_multiset() =~= s.to_multiset());
     }
 }
+
+// @@INCLUDE stdx@@
 
 // @@EXTRACTED@@
 
